@@ -444,6 +444,26 @@ int cs_std_measure(const cs_scenario *sc, int k, cs_c Mf[][NS])
 			vf_cunit(9900 + (uint64_t)st->id,
 				fkey * 64 + (uint64_t)(r * 8 + c));
 	}
+	if (sc->gauss_real != 0 || (sc->displace_id != 0 &&
+		    sc->displace_id == st->id)) {
+	    uint64_t fkey = (uint64_t)(v->f[f] / 1.0e6);
+	    for (int r = 0; r < v->rows; ++r)
+		for (int c = 0; c < v->cols; ++c) {
+		    cs_c *m = &Mf[f][r * v->cols + c];
+		    double sig = sqrt(sc->sigma_nf * sc->sigma_nf +
+			    sc->sigma_tr * sc->sigma_tr * creal(*m * conj(*m)));
+		    if (sc->gauss_real != 0) {
+			uint64_t stream = 20000 + (uint64_t)sc->gauss_real *
+			    64 + (uint64_t)st->id;
+			uint64_t idx = fkey * 64 + (uint64_t)(r * 8 + c);
+			*m += sig * M_SQRT1_2 * (vf_gauss(stream, 2 * idx) +
+				I * vf_gauss(stream, 2 * idx + 1));
+		    }
+		    if (sc->displace_id != 0 && sc->displace_id == st->id)
+			*m += sc->displace_sigmas * sig *
+			    (0.6 + 0.8 * I) * ((r + c) & 1 ? -1.0 : 1.0);
+		}
+	}
     }
     return 0;
 }
